@@ -74,18 +74,32 @@ Lemma equiv_map : forall am hm i kvs j kvs',
                                         && equiv am hm (snd kv) (snd kv')) kvs') kvs.
 Proof. reflexivity. Qed.
 
+Definition keyed_eqb (am : arr_opt) (hm : aoh_opt) (d : bool) (els els' : list node) : bool :=
+  match first_key els' with
+  | Some K =>
+      Nat.eqb (List.length els) (List.length els') &&
+      forallb (fun x => existsb (fun y => same_id K x y && (if d then equiv am hm x y else data_eq x y)) els') els
+  | None => false
+  end.
+
 Lemma equiv_seq : forall am hm i els j els',
   equiv am hm (NSeq i els) (NSeq j els') =
   tag_eqb (tag i) (tag j) &&
   match list_mode am hm els' with
-  | Some (LPos true) => forall2b (equiv am hm) els els'
-  | Some (LPos false) => forall2b data_eq els els'
-  | Some LValue => bag_eqb data_eq els els'
-  | None => false
+  | LPos true => forall2b (equiv am hm) els els'
+  | LPos false => forall2b data_eq els els'
+  | LValue => bag_eqb data_eq els els'
+  | LKey d => keyed_eqb am hm d els els'
   end.
 Proof.
-  intros. simpl. f_equal. destruct (list_mode am hm els') as [[[|]|]|]; auto.
+  intros. simpl. f_equal. destruct (list_mode am hm els') as [[|]| |d]; auto.
   revert els'. induction els as [|x r IH]; destruct els'; simpl; auto. rewrite IH. reflexivity.
+Qed.
+
+Lemma list_mode_unkeyed : forall am hm rels d, unkeyed hm = true -> list_mode am hm rels <> LKey d.
+Proof.
+  intros am hm rels d H. unfold list_mode.
+  destruct rels as [|[| | |] ?]; destruct am, hm; try discriminate H; discriminate.
 Qed.
 
 Lemma forall2b_bag : forall l l',
@@ -124,12 +138,11 @@ Proof.
   - rewrite data_eq_seq in H. rewrite equiv_seq.
     apply andb_true_iff in H. destruct H as [H1 H2]. rewrite H1. simpl.
     pose proof (wf_seq_inv _ _ Hwa) as Aw. pose proof (wf_seq_inv _ _ Hwb) as Bw.
-    destruct (list_mode am hm els') as [[[|]|]|] eqn:M.
+    destruct (list_mode am hm els') as [[|]| |d] eqn:M.
     + eapply forall2b_mono; [|exact H2]. intros x y Hx Hy E. rewrite Forall_forall in IH. apply IH; auto.
     + exact H2.
     + apply forall2b_bag; auto. intros x y Hx Hy E. apply data_eq_sym; auto.
-    + exfalso. unfold list_mode in M. destruct els' as [|[| | |] ?]; try discriminate;
-        destruct hm; try discriminate.
+    + exfalso. exact (list_mode_unkeyed _ _ _ _ Hu M).
 Qed.
 
 (* under positional comparison the equivalence IS data equality *)
